@@ -65,6 +65,17 @@ func badAppendToOther(m map[string]int, deps map[string][]int) {
 	}
 }
 
+func badLoopCarried(m map[string]int, out map[string]int) {
+	seen := []string{}
+	for k, v := range m {
+		if len(seen) == 0 {
+			out[k] = v
+		}
+		seen = append(seen, k)
+	}
+	_ = len(seen)
+}
+
 func goodSorted(m map[string]int) []string {
 	keys := make([]string, 0, len(m))
 	for k := range m {
